@@ -68,7 +68,7 @@ def check_gls(st, backend, kind, start, what):
     sol, cov, chi2, ndf = expected(st)
     free = [j for j in (0, 1) if sc["fp"] != j + 1]
     sd = np.sqrt(np.diag(cov))
-    pv = np.asarray(fit.parameter_values, dtype=float)
+    pv = np.array(fit.parameter_values, dtype=float)
     tag = "[%s/%s]" % (kind, backend)
     if "gls" in what:
         for j in (0, 1):
@@ -97,7 +97,7 @@ def check_gls(st, backend, kind, start, what):
                     return out
     if "defs" in what:
         # C07 on quadratic costs: everything is a closed form of the exact covariance matrix
-        perr = np.asarray(fit.parameter_errors, dtype=float)
+        perr = np.array(fit.parameter_errors, dtype=float)
         for j in (0, 1):
             e = sd[j] if j in free else 0.0
             if abs(perr[j] - e) > 0.02 * max(e, 1e-9) + 1e-9:
